@@ -77,14 +77,20 @@ class Gen:
             n["_pending_anchor"] = a
         return n
 
+    def foot_lines(self, v, pad, out):
+        out.append(pad + "# " + v["foot"])
+        if not v.get("foot_tight"):
+            out.append("")
+
     def deco(self, n):
         r = self.rng
         if r.random() < 0.3:
             n["head"] = self.fresh("hc")
         if r.random() < 0.3 and n["t"] == "s":
             n["line"] = self.fresh("lc")
-        if r.random() < 0.15:
+        if r.random() < 0.22:
             n["foot"] = self.fresh("fc")
+            n["foot_tight"] = r.random() < 0.5
         # an anchor becomes usable once its node is complete
         if "_pending_anchor" in n:
             self.anchors.append(n.pop("_pending_anchor"))
@@ -148,8 +154,7 @@ class Gen:
         else:
             self.render(v, ind, out, pad + k + ": ")
         if v.get("foot"):
-            out.append(pad + "# " + v["foot"])
-            out.append("")
+            self.foot_lines(v, pad, out)
 
     def seq_items(self, n, ind, out):
         pad = "  " * ind
@@ -184,8 +189,7 @@ class Gen:
             else:
                 self.render(v, ind, out, pad + "- ")
             if v.get("foot"):
-                out.append(pad + "# " + v["foot"])
-                out.append("")
+                self.foot_lines(v, pad, out)
 
     def document(self):
         r = self.rng
@@ -415,6 +419,17 @@ def compare_comments(o0, o1, t0, t1, upd):
         n1 = sum(1 for (p, q) in frame1 if p < c1[tok])
         if n0 != n1:
             diffs.append(("comment-moved", tok, "was after %d nodes outside the target" % n0, "is after %d" % n1))
+    if grows:
+        new_pos = [e1["pos"] for q1, e1 in t1.items() if is_under(P, q1) and q1 not in t0 and q1 != P and e1["a"][0] in ("scalar", "alias")]
+        if new_pos:
+            first_new = min(new_pos)
+            for q, e in t0.items():
+                if not is_under(P, q) or q == P or q == P + ("#k",):
+                    continue
+                for c in e.get("cm", []):
+                    for tok in re.findall(r"# (?:hc|lc|fc|lead|tail)\d+\b", c):
+                        if tok in c1 and c1[tok] > first_new and not diffs:
+                            diffs.append(("comment-moved", tok, "on an existing child, in front of the new entries", "after a new entry"))
     # a comment that shares its line with content stays on a line that starts the same way
     l0, l1 = o0.split("\n"), o1.split("\n")
 
